@@ -588,6 +588,23 @@ def c16(**p):
         m = g.number_of_edges()
         if m >= 2 and m != n * (n - 1) // 2:
             c.oblige("edge-set-differs", set(map(frozenset, g.edges)) != set(map(frozenset, gp.edges)))
+        # concrete leg with the REAL random module: the same seed must give the same result whatever state the
+        # caller's global generator is in (16 seeds; the retry loop is entered for some of them on symmetric graphs)
+        if p.get("real_rng", True):
+            import random as _r
+            same = True
+            for i in range(16):
+                sd = i / 16
+                _r.seed(12345)
+                a = t["permute_molecule"](g, sd)
+                _r.seed(999)
+                _r.random()
+                b = t["permute_molecule"](g, sd)
+                if [d.get("tag") for _, d in a.nodes(data=True)] != [d.get("tag") for _, d in b.nodes(data=True)] or set(map(frozenset, a.edges)) != set(map(frozenset, b.edges)):
+                    same = False
+                    c.note("seed_with_different_results", sd)
+                    break
+            c.oblige("same-seed-same-result-with-the-real-generator", same)
     return body
 
 
